@@ -39,7 +39,94 @@ PROBLEMS3 = ["dtlz1", "dtlz2", "dtlz4", "dtlz7"]
 def build(ctx):
     a = ctx.harness("c14", ["c14.cpp"], repo_sources=SEL_SOURCES)
     b = ctx.harness("c14_opt", ["c14_opt.cpp"], repo_sources=OPT_SOURCES)
-    return a, b
+    c = ctx.harness("c14_gen", ["c14_gen.cpp"], repo_sources=OPT_SOURCES)
+    return a, b, c
+
+
+UPD_ALGOS = ["smsemoa", "ssmocma", "nsga2", "nsga2eps", "nsga2hv", "mocma", "moead", "rvea"]
+LATTICE3 = {3: 1, 6: 2, 10: 3, 15: 4}      # mu -> ticks for 3 objectives
+
+
+def gen_pen(r, ctx):
+    d = r.range(1, 4); m = r.range(1, 3); n = r.range(1, 8); alpha = r.choice([0, 1, 1, 2, 5])
+    lo = [r.range(-4, 1) for _ in range(d)]; hi = [l + r.choice([0, 1, 3, 6]) for l in lo]
+    A = [r.range(-3, 3) for _ in range(m * d)]; B = [r.range(0, 2) for _ in range(m)]
+    pts = []
+    for _ in range(n):
+        mode = r.choice(["in", "out", "edge", "far"])
+        for j in range(d):
+            if mode == "in": pts.append(r.range(lo[j], hi[j]))
+            elif mode == "edge": pts.append(r.choice([lo[j], hi[j], lo[j] - 1, hi[j] + 1]))
+            elif mode == "far": pts.append(r.choice([-1, 1]) * r.range(50, 1000))
+            else: pts.append(r.range(lo[j] - 5, hi[j] + 5))
+        ctx.hist("pen_point_class", mode)
+    ctx.hist("pen_alpha", alpha)
+    return "pen " + " ".join(map(str, [alpha, d, m, n] + lo + hi + A + B + pts))
+
+
+def gen_tour(r, ctx):
+    k = r.choice([1, 2, 2, 2, 3, 5]); n = r.range(k + 1, k + 12); c = r.range(1, 6)
+    ranks = [r.choice([1, 1, 2, 3]) if r.below(4) else 1 for _ in range(n)]
+    ctx.hist("tour_size", k); ctx.hist("tour_all_equal_ranks", len(set(ranks)) == 1)
+    return "tour " + " ".join(map(str, [r.range(1, 100000), k, n, c] + ranks))
+
+
+def gen_upd(r, ctx, maxsteps):
+    algo = r.choice(UPD_ALGOS)
+    m = r.choice([2, 2, 3])
+    hvbased = algo in ("smsemoa", "ssmocma", "nsga2hv", "mocma")
+    ref = 1 if (hvbased and (m == 3 or r.below(2))) else 0
+    if algo == "moead": mu = r.choice([3, 5, 9]) if m == 2 else r.choice([3, 6])
+    elif algo == "rvea": mu = r.range(3, 7) if m == 2 else r.choice([3, 6])
+    elif algo in ("mocma", "ssmocma"): mu = r.range(1, 7)
+    else: mu = r.range(3, 7)
+    T = r.range(1, min(mu, 4)) if algo == "moead" else 0
+    d = r.range(1, 3); steps = r.range(1, maxsteps)
+    w = r.choice([2, 3, 6, 12])
+    def fit(): return [r.range(0, w) for _ in range(m)]
+    parents = []
+    for i in range(mu):
+        f = parents[r.below(len(parents))][1] if parents and r.below(5) == 0 else fit()      # duplicates
+        parents.append(([r.range(-3, 3) for _ in range(d)], f))
+    pool = [p for p in parents]
+    toks = [ref, mu, m, d, T, steps]
+    if ref: toks += [w + 1 + r.below(3) for _ in range(m)]
+    for x, f in parents: toks += x + f
+    c = 1 if algo in ("smsemoa", "ssmocma", "moead") else mu
+    for _ in range(steps):
+        toks.append(c)
+        for _ in range(c):
+            kind = r.choice(["new", "new", "new", "dup", "good", "bad"])
+            ctx.hist("upd_offspring_class", kind)
+            if kind == "dup": x, u = pool[r.below(len(pool))]; x, u = list(x), list(u)
+            else:
+                x = [r.range(-3, 3) for _ in range(d)]
+                u = fit() if kind == "new" else ([0] * m if kind == "good" else [w] * m)
+                if kind == "good": u[r.below(m)] = r.range(0, w)
+            pen = r.choice([0, 0, 0, 1, 2]) if kind != "dup" else 0
+            toks += x + [v + pen for v in u] + u
+            pool.append((x, u))
+    ctx.hist("upd_algo", algo); ctx.hist("upd_mu", mu); ctx.hist("upd_objectives", m); ctx.hist("upd_ref", ref)
+    ctx.count("upd_steps_total", steps)
+    return f"upd {algo} " + " ".join(map(str, toks))
+
+
+def observe_aux(ctx, exe, lines):
+    """first pass: the real code reports the auxiliary values that are inputs of the model (rng draws of the
+    tournament, MOEA/D neighbourhoods, RVEA sub-group assignment and order of the angle-penalised distances);
+    they are appended to the op (`aux ...`), and re-verified by the harness in the comparison pass"""
+    import subprocess
+    p = subprocess.run([exe, "--aux"], input="\n".join(lines) + "\n", capture_output=True, text=True, timeout=900)
+    out = p.stdout.split("\n")
+    if p.returncode != 0 or len(out) < len(lines):
+        ctx.log(f"aux pass failed rc={p.returncode}: {p.stderr[-1500:]}")
+        out = out + [""] * (len(lines) - len(out))
+    res = []
+    for l, a in zip(lines, out):
+        a = a.strip()
+        need = l.split()[0] == "tour" or l.split()[1] in ("moead", "rvea")
+        res.append(l + " aux " + a if (a or need) else l)
+    return res
 
 
 def gen_sel(r, ctx):
@@ -79,7 +166,7 @@ def gen_opt(r, ctx, maxsteps):
 
 def classify(ops, res):
     t = ops[0].split()
-    tag = t[0] + ":" + t[1] if t[0] in ("sel", "opt") else t[0]
+    tag = t[0] + ":" + t[1] if t[0] in ("sel", "opt", "upd") else t[0]
     if res.crash:
         m = re.search(r"SUMMARY: \w+: (\S+)[^\n]*? in (?:\w+ )*(?:shark::)?(\w+)|runtime error: ([^\n]*)", res.stderr)
         k = (f"{m.group(1)}@{m.group(2)}" if m.group(1) else m.group(3)) if m else ("timeout" if "TIMEOUT" in res.stderr else "crash")
@@ -134,25 +221,31 @@ def run(ctx):
     ctx.prove(["SharkVerif.Props.C14"])
     if not ctx.quick:
         ctx.leanchecker(["SharkVerif.Props.C14"])
-    sel_exe, opt_exe = build(ctx)
+    sel_exe, opt_exe, gen_exe = build(ctx)
     drv = ctx.driver("drv_c14")
-    if not sel_exe or not opt_exe or not drv:
+    if not sel_exe or not opt_exe or not gen_exe or not drv:
         return
     r = ctx.rng.fork("c14")
     nsel, nelit, nopt, maxsteps = (400, 60, 90, 120) if ctx.quick else (3000, 300, 500, 300)
     sel_lines = load_corpus(("sel", "elit")) + [gen_sel(r, ctx) for _ in range(nsel)] + [gen_elit(r, ctx) for _ in range(nelit)]
     opt_lines = load_corpus(("opt",)) + [gen_opt(r, ctx, maxsteps) for _ in range(nopt)]
-    ctx.cov["corpus_cases"] = len(load_corpus(("sel", "elit", "opt")))
-    ctx.cov["evaluations"] = len(sel_lines) + len(opt_lines)
-    ctx.cov["distinct_nontrivial"] = len(set(sel_lines)) + len(set(opt_lines))
+    npen, ntour, nupd, updsteps = (60, 60, 260, 5) if ctx.quick else (400, 400, 2500, 12)
+    gen_lines = load_corpus(("pen", "tour", "upd")) + [gen_pen(r, ctx) for _ in range(npen)] + [gen_tour(r, ctx) for _ in range(ntour)] + \
+        [gen_upd(r, ctx, updsteps) for _ in range(nupd)]
+    gen_lines = observe_aux(ctx, gen_exe, [l.split(" aux")[0] for l in gen_lines])
+    ctx.cov["corpus_cases"] = len(load_corpus(("sel", "elit", "opt", "pen", "tour", "upd")))
+    ctx.cov["evaluations"] = len(sel_lines) + len(opt_lines) + len(gen_lines)
+    ctx.cov["distinct_nontrivial"] = len(set(sel_lines)) + len(set(opt_lines)) + len(set(gen_lines))
+    ctx.sample({"upd_op": gen_lines[-1][:300]})
     ctx.sample({"sel_op": sel_lines[len(sel_lines) // 2][:160]}); ctx.sample({"opt_op": opt_lines[-1]})
     C13.correspond_lines(ctx, "K-C14[selection]", sel_lines, [sel_exe], [drv], classify=classify, shrink=shrink)
+    C13.correspond_lines(ctx, "K-C14[generation]", gen_lines, [gen_exe], [drv], classify=classify, shrink=shrink)
     C13.correspond_lines(ctx, "K-C14[optimizers]", opt_lines, [opt_exe], [drv], classify=classify, shrink=shrink, timeout=1500)
 
 
 def replay(ctx, rep):
-    sel_exe, opt_exe = build(ctx); drv = ctx.driver("drv_c14")
-    exe = opt_exe if rep["ops"][0].startswith("opt") else sel_exe
+    sel_exe, opt_exe, gen_exe = build(ctx); drv = ctx.driver("drv_c14")
+    exe = opt_exe if rep["ops"][0].startswith("opt") else (gen_exe if rep["ops"][0].split()[0] in ("pen", "tour", "upd") else sel_exe)
     res = core.run_case(ctx, [exe], [drv], rep["ops"])
     print("\n".join(f"op   : {o}\nimpl : {a}\nmodel: {b}" for o, a, b in zip(rep["ops"], res.impl, res.model)))
     print("stderr:", res.stderr[-2000:])
